@@ -361,6 +361,18 @@ func runC12(p *core.Prog, r *core.Result) {
 					ok = false
 				}
 			}
+			// a lookup under a key that was read out of the same table (its keys collected, sorted, and walked)
+			if _, isLookup := in.(*ssa.Lookup); isLookup && !ok {
+				tbl := table
+				ok = core.DependsOn(kv, core.SliceOpts{Stores: true}, func(v ssa.Value) bool {
+					nx, isNext := v.(*ssa.Next)
+					if !isNext {
+						return false
+					}
+					rg, isRange := nx.Iter.(*ssa.Range)
+					return isRange && core.LoadOfField(rg.X, pkgRoot, "Project", tbl)
+				})
+			}
 			r.Check(ok, "R12.4", fmt.Sprintf("%s#%s-key-%d", fname(fn), table, nKeys), p.InstrPos(in), "Project."+table+" is keyed by a printed label", "Project."+table+" is keyed by something other than (*Label).String(): two spellings of one label become two identities")
 		})
 	}
